@@ -3986,6 +3986,17 @@ func ruleSizeBoundsIn64Bits(r *Run) {
 				k++
 				bt, _ := bo.Type().Underlying().(*types.Basic)
 				wide := bt != nil && (bt.Kind() == types.Int64 || bt.Kind() == types.Uint64 || bt.Kind() == types.Int || bt.Kind() == types.Uint)
+				// LZ4 expands a value by at most 255: a tighter factor refuses valid, highly compressible values
+				factor := int64(-1)
+				for _, o := range []ssa.Value{bo.X, bo.Y} {
+					if c, ok := constInt(stripConv(o)); ok {
+						factor = c
+					}
+				}
+				if factor >= 0 {
+					r.check(factor >= 255, fmt.Sprintf("%s:length-product#%d:factor-at-least-the-format-maximum", fname(f), k), "the factor is at least LZ4's maximum expansion (255)",
+						fmt.Sprintf("a decoded size is refused when it exceeds %d times the stored length, but LZ4 can expand by 255: a valid, highly compressible value (a block of one value) no longer deserializes", factor), w.pos(bo.Pos()))
+				}
 				r.check(wide, fmt.Sprintf("%s:length-product#%d:64-bit", fname(f), k), "the product is computed in a 64-bit type",
 					"a buffer length is multiplied in "+bo.Type().String()+": for buffers above 2^32/255 bytes the product wraps and the plausibility test rejects a valid value", w.pos(bo.Pos()))
 			}
@@ -6073,4 +6084,899 @@ func rulePartitionClipsRuns(r *Run) {
 			"a run is filed under a block with a length that was not clipped to the block: a run that crosses the block's X boundary is handed whole to the worker of its first block, which indexes past the end of the block's voxels (in the split workers' goroutines: the process ends) or spills into the next row", w.pos(c.Pos()))
 	}
 	r.check(n >= 2, "Partition:filed-runs", fmt.Sprintf("%d", n), "fewer than expected: rule needs review", w.fpos(f))
+}
+
+// ---------------------------------------------------------------------------------------------
+// R14.17 — the down-sampled voxel is chosen by the comparison over the complete vote
+
+func init() {
+	register(ruleDef{ID: "R14.17", Prop: "C14", Tier: "quick", Floor: 1,
+		Title: "the down-sampled voxel is chosen over the complete vote: in labels.downresArray the label written to the lower-resolution array is a key of the vote table picked in the loop over that table (or the background constant) — never a label fixed while the eight votes were still being counted, which cannot know about a tie with a smaller label",
+		Fn:    ruleWinnerFromCompleteVote})
+}
+
+func ruleWinnerFromCompleteVote(r *Run) {
+	w := r.W
+	f := w.fn("datatype/common/labels", "downresArray")
+	if f == nil {
+		r.undecided("labels.downresArray", "anchor not found")
+		return
+	}
+	n := 0
+	for _, c := range calls(f) {
+		if methodNameOf(c) != "PutUint64" {
+			continue
+		}
+		n++
+		args := c.Common().Args
+		val := args[len(args)-1]
+		bad := ""
+		for _, rv := range roots(val, f) {
+			switch x := rv.V.(type) {
+			case *ssa.Const:
+				continue
+			case *ssa.Extract:
+				if nx, ok := x.Tuple.(*ssa.Next); ok {
+					if rg, ok := nx.Iter.(*ssa.Range); ok {
+						if _, isMap := rg.X.Type().Underlying().(*types.Map); isMap {
+							continue
+						}
+					}
+				}
+				bad = x.Name() + " at " + w.pos(x.Pos())
+			default:
+				bad = rv.V.Name() + " at " + w.pos(rv.V.Pos())
+			}
+		}
+		r.check(bad == "", fmt.Sprintf("downresArray:written-label#%d:picked-over-the-vote-table", n), "the written label is a key picked in the loop over the vote table",
+			"the label written for a 2x2x2 cell can be one fixed outside the loop over the vote table ("+bad+"): with two labels at four votes each the documented tie-break (the smaller label) is skipped, and the stored lower-resolution block differs from the specified down-sampling", w.pos(c.Pos()))
+	}
+	r.check(n >= 1, "downresArray:label-writes", fmt.Sprintf("%d", n), "no write found: rule needs review", w.fpos(f))
+}
+
+// ---------------------------------------------------------------------------------------------
+// R20.68 — every item handed to a per-item drain has been counted
+
+func init() {
+	register(ruleDef{ID: "R20.68", Prop: "C20", Tier: "quick", Floor: 1,
+		Title: "every item handed to a per-item drain has been counted: where a goroutine started by a function receives from a channel in a loop and calls Done() on a WaitGroup once per received item, every send on that channel — in the function or in a closure it starts — has, in the same loop pass, an Add() on that WaitGroup before it (in the closure or before the closure is started), and no path leads from one send to another without an Add in between; an uncounted item drives the counter negative in the drain goroutine (a panic outside any recover) or lets Wait return and the channel be closed under a sender",
+		Fn:    ruleDrainItemsCounted})
+}
+
+// captureRoot follows loads and closure captures back to the cell (Alloc, parameter or other value) in the
+// outermost enclosing function.
+func captureRoot(v ssa.Value) ssa.Value {
+	for i := 0; i < 20; i++ {
+		switch x := v.(type) {
+		case *ssa.UnOp:
+			if x.Op == token.MUL {
+				v = x.X
+				continue
+			}
+			return v
+		case *ssa.FreeVar:
+			g := x.Parent()
+			p := g.Parent()
+			if p == nil {
+				return v
+			}
+			idx := -1
+			for k, fv := range g.FreeVars {
+				if fv == x {
+					idx = k
+				}
+			}
+			var found ssa.Value
+			for _, b := range p.Blocks {
+				for _, in := range b.Instrs {
+					if mc, ok := in.(*ssa.MakeClosure); ok && mc.Fn == ssa.Value(g) && idx >= 0 && idx < len(mc.Bindings) {
+						found = mc.Bindings[idx]
+					}
+				}
+			}
+			if found == nil {
+				return v
+			}
+			v = found
+			continue
+		}
+		return v
+	}
+	return v
+}
+
+func closureTree(f *ssa.Function) []*ssa.Function {
+	out := []*ssa.Function{f}
+	for _, a := range f.AnonFuncs {
+		out = append(out, closureTree(a)...)
+	}
+	return out
+}
+
+func ruleDrainItemsCounted(r *Run) {
+	w := r.W
+	nDrains, nSends := 0, 0
+	isWG := func(c ssa.CallInstruction, name string) (ssa.Value, bool) {
+		callee := staticCallee(c)
+		if callee == nil || callee.Name() != name || callee.Pkg == nil || callee.Pkg.Pkg.Path() != "sync" || len(c.Common().Args) == 0 {
+			return nil, false
+		}
+		if !strings.Contains(c.Common().Args[0].Type().String(), "sync.WaitGroup") {
+			return nil, false
+		}
+		return captureRoot(c.Common().Args[0]), true
+	}
+	for _, f := range w.RepoFuncs {
+		if len(f.Blocks) == 0 || isTestFunc(w, f) || f.Parent() != nil || len(f.AnonFuncs) == 0 {
+			continue
+		}
+		p := relPkg(pkgPathOf(f))
+		if !(strings.HasPrefix(p, "datatype/") || p == "datastore" || p == "server" || strings.HasPrefix(p, "storage")) {
+			continue
+		}
+		tree := closureTree(f)
+		// drains: closures started with go that receive in a loop and call Done in that loop
+		type drain struct {
+			g      *ssa.Function
+			ch, wg ssa.Value
+		}
+		var drains []drain
+		for _, g := range tree {
+			if g == f {
+				continue
+			}
+			for _, b := range g.Blocks {
+				for _, in := range b.Instrs {
+					u, ok := in.(*ssa.UnOp)
+					if !ok || u.Op != token.ARROW {
+						continue
+					}
+					_, set, _ := innermostLoop(g, b)
+					if set == nil {
+						continue
+					}
+					ch := captureRoot(u.X)
+					if ch.Parent() != f {
+						continue
+					}
+					// every Done in this loop on a captured group
+					var wg ssa.Value
+					for _, c := range calls(g) {
+						if _, isDefer := c.(*ssa.Defer); isDefer || !set[c.Block()] {
+							continue
+						}
+						if root, ok := isWG(c, "Done"); ok && root.Parent() == f {
+							wg = root
+						}
+					}
+					if wg == nil {
+						continue
+					}
+					dup := false
+					for _, d := range drains {
+						if d.ch == ch && d.wg == wg {
+							dup = true
+						}
+					}
+					if !dup {
+						drains = append(drains, drain{g, ch, wg})
+					}
+				}
+			}
+		}
+		for _, d := range drains {
+			nDrains++
+			counted := func(x *ssa.Function, site ssa.Instruction) bool {
+				// an Add covers the site when it comes before it on every path and the site is in no loop the Add
+				// is outside of (a send on the way out of the loop — an error return — is still in the Add's pass)
+				for _, c := range calls(x) {
+					if root, ok := isWG(c, "Add"); ok && root == d.wg && domInstr(c, site) {
+						inside := true
+						for _, set := range naturalLoops(x) {
+							if set[site.Block()] && !set[c.Block()] {
+								inside = false
+							}
+						}
+						if inside {
+							return true
+						}
+					}
+				}
+				return false
+			}
+			isAddIn := func(in ssa.Instruction) bool {
+				c, ok := in.(ssa.CallInstruction)
+				if !ok {
+					return false
+				}
+				root, ok := isWG(c, "Add")
+				return ok && root == d.wg
+			}
+			k := 0
+			for _, x := range tree {
+				if x == d.g {
+					continue
+				}
+				var sends []ssa.Instruction
+				for _, b := range x.Blocks {
+					for _, in := range b.Instrs {
+						if s, ok := in.(*ssa.Send); ok && captureRoot(s.Chan) == d.ch {
+							sends = append(sends, in)
+						}
+					}
+				}
+				for _, s := range sends {
+					k++
+					nSends++
+					// walk outwards until an Add covers the site
+					ok := false
+					cx, site := x, s
+					for {
+						if counted(cx, site) {
+							ok = true
+							break
+						}
+						par := cx.Parent()
+						if par == nil {
+							break
+						}
+						var use ssa.Instruction
+						for _, b := range par.Blocks {
+							for _, in := range b.Instrs {
+								if mc, isMC := in.(*ssa.MakeClosure); isMC && mc.Fn == ssa.Value(cx) {
+									use = in
+									for _, ref := range *mc.Referrers() {
+										if _, isCall := ref.(ssa.CallInstruction); isCall {
+											use = ref
+										}
+									}
+								}
+							}
+						}
+						if use == nil {
+							break
+						}
+						cx, site = par, use
+					}
+					r.check(ok, fmt.Sprintf("%s:drain:%s:send#%d:counted", fname(f), fname(d.g), k), "an Add() on the drain's WaitGroup comes before the send in the same loop pass",
+						"an item is sent to the goroutine that calls Done() once per received item without an Add() before it in the same pass: the counter goes negative in the drain goroutine — a panic outside any recover that ends the process — or Wait returns early and the channel is closed under a sender still transcoding", w.pos(s.Pos()))
+					for _, s2 := range sends {
+						pth := findPath(x, s, isAddIn, func(in ssa.Instruction) bool { return in == s2 }, nil)
+						if pth != nil {
+							r.violation(fmt.Sprintf("%s:drain:%s:send#%d:one-item-per-count", fname(f), fname(d.g), k),
+								"a path leads from one send to the drain to another without an Add() in between: two items are handed over for one count, the second Done() drives the counter negative", w.pos(s.Pos()), w.renderPath(pth)...)
+						}
+					}
+				}
+			}
+			r.check(k >= 1, fmt.Sprintf("%s:drain:%s:senders", fname(f), fname(d.g)), fmt.Sprintf("%d", k), "no sender found for the drained channel: rule needs review", w.fpos(f))
+		}
+	}
+	r.check(nDrains >= 2 && nSends >= 4, "repo:per-item-drains", fmt.Sprintf("%d drains, %d sends", nDrains, nSends), "too few: rule needs review", "-")
+}
+
+// ---------------------------------------------------------------------------------------------
+// R17.16 — a request that did not ask for isotropy gets the geometry it asked for
+
+func init() {
+	register(ruleDef{ID: "R17.16", Prop: "C17", Tier: "quick", Floor: 1,
+		Title: "a slice request that did not ask for isotropic scaling is read with the geometry it named: in dvid.Isotropy2D, with the isotropic flag false, every return that can be reached hands back the geometry parameter itself (the raw 2-D handlers of imageblk read exactly the geometry this function returns)",
+		Fn:    ruleRawSliceKeepsGeometry})
+}
+
+func ruleRawSliceKeepsGeometry(r *Run) {
+	w := r.W
+	f := w.fn("dvid", "Isotropy2D")
+	if f == nil || len(f.Blocks) == 0 {
+		r.undecided("dvid.Isotropy2D", "anchor not found")
+		return
+	}
+	var geom, iso *ssa.Parameter
+	for _, p := range f.Params {
+		if strings.HasSuffix(p.Type().String(), "dvid.Geometry") {
+			geom = p
+		}
+		if p.Type().String() == "bool" {
+			iso = p
+		}
+	}
+	if geom == nil || iso == nil {
+		r.undecided("dvid.Isotropy2D", "geometry / flag parameters not found")
+		return
+	}
+	s := runSCCP(f, &AEnv{Params: map[*ssa.Parameter]AVal{iso: aBool(false)}})
+	n := 0
+	bad := findPath(f, nil, nil, func(in ssa.Instruction) bool {
+		ret, ok := in.(*ssa.Return)
+		if !ok || len(ret.Results) == 0 {
+			return false
+		}
+		n++
+		return ret.Results[0] != ssa.Value(geom)
+	}, s.EdgeFeasible)
+	r.check(bad == nil, "dvid.Isotropy2D:flag-off:returns-the-given-geometry", "with the flag off only the given geometry is returned",
+		"with the isotropic flag off a return other than the given geometry can be reached: a raw slice request on an instance whose two in-plane resolutions differ is read with a rescaled (smaller) geometry, and the voxels outside it are missing from the reply", w.fpos(f), w.renderPath(bad)...)
+	// the callers whose read geometry is this result
+	k := 0
+	for _, cs := range callSitesOf(w)[f] {
+		if strings.HasPrefix(relPkg(pkgPathOf(cs.Parent())), "datatype/") {
+			k++
+		}
+	}
+	r.check(k >= 2, "dvid.Isotropy2D:datatype-callers", fmt.Sprintf("%d", k), "too few callers: rule needs review", w.fpos(f))
+}
+
+// ---------------------------------------------------------------------------------------------
+// R19.10 — every ancestor of the last transferred version is on the path
+
+func init() {
+	register(ruleDef{ID: "R19.10", Prop: "C19", Tier: "quick", Floor: 3,
+		Title: "every ancestor of the last transferred version is on the version path: in datastore.calcVersionPath the loop over the result of GetAncestry is left only when the list is exhausted or with an error, and every pass that goes round again has put the loop's version into versionsOnPath (a key-value written in an ancestor older than the first listed version is inherited by every listed version and must be folded into the first one)",
+		Fn:    ruleEveryAncestorOnPath})
+}
+
+func ruleEveryAncestorOnPath(r *Run) {
+	w := r.W
+	f := w.fn("datastore", "calcVersionPath")
+	if f == nil || len(f.Blocks) == 0 {
+		r.undecided("datastore.calcVersionPath", "anchor not found")
+		return
+	}
+	// the ancestry list
+	var anc ssa.Value
+	for _, c := range calls(f) {
+		if callee := staticCallee(c); callee != nil && callee.Name() == "GetAncestry" {
+			anc = c.Value()
+		}
+	}
+	if anc == nil {
+		r.undecided("datastore.calcVersionPath", "GetAncestry call not found")
+		return
+	}
+	// the loop whose element is read from the ancestry list
+	var elem ssa.Value
+	var loopSet map[*ssa.BasicBlock]bool
+	var header *ssa.BasicBlock
+	for _, b := range f.Blocks {
+		for _, in := range b.Instrs {
+			u, ok := in.(*ssa.UnOp)
+			if !ok || u.Op != token.MUL {
+				continue
+			}
+			ia, ok := u.X.(*ssa.IndexAddr)
+			if !ok {
+				continue
+			}
+			from := false
+			for _, rv := range roots(ia.X, f) {
+				if ex, ok := rv.V.(*ssa.Extract); ok && ex.Tuple == anc {
+					from = true
+				}
+				if rv.V == anc {
+					from = true
+				}
+			}
+			if !from {
+				continue
+			}
+			if h, set, _ := innermostLoop(f, b); set != nil {
+				elem, loopSet, header = u, set, h
+			}
+		}
+	}
+	if elem == nil {
+		r.undecided("datastore.calcVersionPath", "loop over the ancestry not found")
+		return
+	}
+	isPut := func(in ssa.Instruction) bool {
+		mu, ok := in.(*ssa.MapUpdate)
+		return ok && stripConv(mu.Key) == elem
+	}
+	// (a) exits: from a block of the loop other than the header, an edge out of the loop leads only to error returns
+	nExit := 0
+	for b := range loopSet {
+		if b == header {
+			continue
+		}
+		for _, s := range b.Succs {
+			if loopSet[s] {
+				continue
+			}
+			nExit++
+			first := s.Instrs[0]
+			var pth []ssa.Instruction
+			if successExit(first) {
+				pth = []ssa.Instruction{first}
+			} else {
+				pth = findPath(f, first, nil, successExit, nil)
+			}
+			r.check(pth == nil, fmt.Sprintf("calcVersionPath:ancestor-loop:early-exit#%d:error-only", nExit), "the early exit ends in an error",
+				"the loop over the ancestors is left early on a path that returns success: ancestors after that point are not on the version path, and what the transferred versions inherit from them is missing at the destination", w.pos(b.Instrs[len(b.Instrs)-1].Pos()), w.renderPath(pth)...)
+		}
+	}
+	// (b) a pass that goes round again has recorded its version
+	var pth []ssa.Instruction
+	for _, b := range f.Blocks {
+		if !loopSet[b] {
+			continue
+		}
+		for _, in := range b.Instrs {
+			if in == elem.(ssa.Instruction) {
+				pth = findPath(f, in, isPut, func(x ssa.Instruction) bool { return x.Block() == header && x == header.Instrs[0] }, func(bb *ssa.BasicBlock, i int) bool { return loopSet[bb.Succs[i]] })
+			}
+		}
+	}
+	r.check(pth == nil, "calcVersionPath:ancestor-loop:every-pass-records", "each pass puts its version on the path",
+		"a pass of the loop over the ancestors can go round again without putting its version on the version path: what the transferred versions inherit from that ancestor is missing at the destination", w.pos(elem.Pos()), w.renderPath(pth)...)
+	r.check(nExit >= 1, "calcVersionPath:ancestor-loop:exits", fmt.Sprintf("%d", nExit), "no early exit found: rule needs review", w.fpos(f))
+}
+
+// ---------------------------------------------------------------------------------------------
+// R8.26 — the split's index surgery consults the split map for every supervoxel it did not split in the block
+
+func init() {
+	register(ruleDef{ID: "R8.26", Prop: "C08", Tier: "quick", Floor: 2,
+		Title: "the index surgery of a body split looks at every supervoxel of every block: in labelmap.Data.splitIndex a pass of the loop over a block's supervoxel counts goes round again only after it has either replaced the supervoxel by its split/remain pair (the delete of the old id) or looked it up in op.SplitMap — a supervoxel split elsewhere is renamed to its remain id in every block, because the voxels and the mapping are",
+		Fn:    ruleSplitIndexEverySupervoxel})
+}
+
+func ruleSplitIndexEverySupervoxel(r *Run) {
+	w := r.W
+	f := w.method("datatype/labelmap", "Data", "splitIndex")
+	if f == nil || len(f.Blocks) == 0 {
+		r.undecided("labelmap.Data.splitIndex", "anchor not found")
+		return
+	}
+	n := 0
+	for _, b := range f.Blocks {
+		for _, in := range b.Instrs {
+			nx, ok := in.(*ssa.Next)
+			if !ok {
+				continue
+			}
+			rg, ok := nx.Iter.(*ssa.Range)
+			if !ok || !isFieldLoad(rg.X, "SVCount", "Counts") {
+				continue
+			}
+			var key ssa.Value
+			for _, ref := range *nx.Referrers() {
+				if ex, ok := ref.(*ssa.Extract); ok && ex.Index == 1 {
+					key = ex
+				}
+			}
+			if key == nil {
+				continue
+			}
+			n++
+			handled := func(x ssa.Instruction) bool {
+				if lk, ok := x.(*ssa.Lookup); ok {
+					if u, ok := lk.X.(*ssa.UnOp); ok {
+						if fa, ok := u.X.(*ssa.FieldAddr); ok {
+							if name, _, _ := fieldName(fa); name == "SplitMap" {
+								return stripConv(lk.Index) == key
+							}
+						}
+					}
+					if fld, ok := lk.X.(*ssa.Field); ok {
+						if st, ok := fld.X.Type().Underlying().(*types.Struct); ok && st.Field(fld.Field).Name() == "SplitMap" {
+							return stripConv(lk.Index) == key
+						}
+					}
+				}
+				if c, ok := x.(*ssa.Call); ok {
+					if bi, ok := c.Call.Value.(*ssa.Builtin); ok && bi.Name() == "delete" && len(c.Call.Args) == 2 && stripConv(c.Call.Args[1]) == key {
+						return true
+					}
+				}
+				return false
+			}
+			pth := findPath2(f, key.(ssa.Instruction), handled, func(x ssa.Instruction) bool { return x == ssa.Instruction(nx) }, nil, phiConstBranch)
+			r.check(pth == nil, fmt.Sprintf("splitIndex:supervoxel-loop#%d:every-supervoxel-replaced-or-looked-up", n), "each pass replaces the supervoxel or looks it up in the split map",
+				"a pass over a block's supervoxels can go round again without replacing the supervoxel and without looking it up in op.SplitMap: a supervoxel that is split in another block keeps its old id in this block's index entry while its voxels are relabelled to the remain id — the index and the voxels disagree after the split", w.pos(nx.Pos()), w.renderPath(pth)...)
+		}
+	}
+	r.check(n >= 1, "splitIndex:supervoxel-loops", fmt.Sprintf("%d", n), "no loop over a block's counts found: rule needs review", w.fpos(f))
+}
+
+// ---------------------------------------------------------------------------------------------
+// R9.16 — a block is declared all-foreground only after its whole label list was looked at
+
+func init() {
+	register(ruleDef{ID: "R9.16", Prop: "C09", Tier: "quick", Floor: 2,
+		Title: "a block is sent as all-foreground only when its whole label list was looked at: in labels.WriteBinaryBlocks the hasBackground argument of WriteBinaryBlock is, on every way out of the scan of the block's labels other than the end of the list, the constant true (an early stop taken before a non-target label was met would report a block that also holds background as solid)",
+		Fn:    ruleBackgroundKnownAtEarlyStop})
+}
+
+func ruleBackgroundKnownAtEarlyStop(r *Run) {
+	w := r.W
+	f := w.fn("datatype/common/labels", "WriteBinaryBlocks")
+	if f == nil || len(f.Blocks) == 0 {
+		r.undecided("labels.WriteBinaryBlocks", "anchor not found")
+		return
+	}
+	n := 0
+	for _, c := range calls(f) {
+		if methodNameOf(c) != "WriteBinaryBlock" {
+			continue
+		}
+		args := c.Common().Args
+		var flag ssa.Value
+		for _, a := range args {
+			if a.Type().String() == "bool" {
+				flag = a
+			}
+		}
+		if flag == nil {
+			continue
+		}
+		n++
+		loops := naturalLoops(f)
+		bad := ""
+		seen := map[ssa.Value]bool{}
+		var visit func(v ssa.Value)
+		visit = func(v ssa.Value) {
+			if seen[v] {
+				return
+			}
+			seen[v] = true
+			phi, ok := v.(*ssa.Phi)
+			if !ok {
+				return
+			}
+			for i, e := range phi.Edges {
+				pred := phi.Block().Preds[i]
+				// an early way out: pred lies in a loop that the phi's block is outside of, and is not that loop's header
+				early := false
+				for h, set := range loops {
+					if set[pred] && !set[phi.Block()] && pred != h {
+						early = true
+					}
+				}
+				if early {
+					if k, ok := e.(*ssa.Const); !ok || k.Value == nil || k.Value.String() != "true" {
+						bad = "from " + w.pos(pred.Instrs[len(pred.Instrs)-1].Pos())
+						if bad == "from -" {
+							bad = "from block " + pred.String()
+						}
+					}
+					continue
+				}
+				visit(e)
+			}
+		}
+		visit(flag)
+		r.check(bad == "", fmt.Sprintf("WriteBinaryBlocks:WriteBinaryBlock#%d:background-known-at-early-stop", n), "every early stop of the label scan carries hasBackground = true",
+			"the scan of the block's label list can stop early ("+bad+") while hasBackground is still undecided: a block whose remaining labels are not the requested ones is written with content flag 'all foreground', and the reader fills the whole block", w.pos(c.Pos()))
+	}
+	r.check(n >= 1, "WriteBinaryBlocks:WriteBinaryBlock-calls", fmt.Sprintf("%d", n), "no call found: rule needs review", w.fpos(f))
+}
+
+// ---------------------------------------------------------------------------------------------
+// R9.17 — the remembered block is one that held the label
+
+func init() {
+	register(ruleDef{ID: "R9.17", Prop: "C09", Tier: "quick", Floor: 2,
+		Title: "runs are carried only from the last block that held the label: in labels.WriteRLEs every store to the run buffer's block coordinate lies behind the 'block holds a requested label' test (a coordinate remembered from a block without the label makes the next block look adjacent and joins runs across a gap)",
+		Fn:    ruleCarryFromLabelBlocksOnly})
+	register(ruleDef{ID: "R18.21", Prop: "C18", Tier: "quick", Floor: 2,
+		Title: "(= R9.17) runs are carried only from the last block that held the label (labels.WriteRLEs)",
+		Fn:    ruleCarryFromLabelBlocksOnly})
+}
+
+func ruleCarryFromLabelBlocksOnly(r *Run) {
+	w := r.W
+	f := w.fn("datatype/common/labels", "WriteRLEs")
+	if f == nil || len(f.Blocks) == 0 {
+		r.undecided("labels.WriteRLEs", "anchor not found")
+		return
+	}
+	// the 'holds the label' test: an If on a bool phi all of whose roots are constants
+	type test struct {
+		ifi  *ssa.If
+		succ int
+	}
+	var tests []test
+	for _, b := range f.Blocks {
+		ifi, ok := b.Instrs[len(b.Instrs)-1].(*ssa.If)
+		if !ok {
+			continue
+		}
+		cond, succ := ifi.Cond, 0
+		if u, ok := cond.(*ssa.UnOp); ok && u.Op == token.NOT {
+			cond, succ = u.X, 1
+		}
+		if _, ok := cond.(*ssa.Phi); !ok {
+			continue
+		}
+		allConst, hasTrue := true, false
+		for _, rv := range roots(cond, f) {
+			k, ok := rv.V.(*ssa.Const)
+			if !ok {
+				allConst = false
+				continue
+			}
+			if k.Value != nil && k.Value.String() == "true" {
+				hasTrue = true
+			}
+		}
+		if allConst && hasTrue {
+			tests = append(tests, test{ifi, succ})
+		}
+	}
+	n := 0
+	for _, b := range f.Blocks {
+		for _, in := range b.Instrs {
+			st, ok := in.(*ssa.Store)
+			if !ok {
+				continue
+			}
+			fa, ok := st.Addr.(*ssa.FieldAddr)
+			if !ok {
+				continue
+			}
+			if name, _, _ := fieldName(fa); name != "coord" || !strings.Contains(fa.X.Type().String(), "rleBuffer") {
+				continue
+			}
+			n++
+			ok2 := false
+			for _, t := range tests {
+				if guardedByEdge(t.ifi, t.succ, st) {
+					ok2 = true
+				}
+			}
+			r.check(ok2, fmt.Sprintf("WriteRLEs:coord-store#%d:behind-holds-label-test", n), "the coordinate is remembered only for a block that holds the label",
+				"the run buffer's block coordinate is stored for a block that may not hold the label: the next block with the label then looks like its +X neighbour, pending runs are not flushed, and runs are joined across the gap — voxels of other labels are reported as the body's", w.pos(st.Pos()))
+		}
+	}
+	r.check(n >= 1 && len(tests) >= 1, "WriteRLEs:coord-stores", fmt.Sprintf("%d stores, %d tests", n, len(tests)), "anchor not found: rule needs review", w.fpos(f))
+}
+
+// phiConstBranch is a predFilter: a block that ends in a test of a bool phi of its own, entered by an edge on
+// which that phi is a constant (or the condition its predecessor has just
+// branched on), is left only by the matching successor.
+func phiConstBranch(pred, b *ssa.BasicBlock, succIdx int) bool {
+	if pred == nil || len(b.Instrs) == 0 {
+		return true
+	}
+	ifi, ok := b.Instrs[len(b.Instrs)-1].(*ssa.If)
+	if !ok {
+		return true
+	}
+	cond, neg := ifi.Cond, false
+	if u, ok := cond.(*ssa.UnOp); ok && u.Op == token.NOT && u.Block() == b {
+		cond, neg = u.X, true
+	}
+	phi, ok := cond.(*ssa.Phi)
+	if !ok || phi.Block() != b {
+		return true
+	}
+	for i, p := range b.Preds {
+		if p != pred {
+			continue
+		}
+		var val bool
+		if k, ok := phi.Edges[i].(*ssa.Const); ok && k.Value != nil {
+			val = k.Value.String() == "true"
+		} else if pif, ok := pred.Instrs[len(pred.Instrs)-1].(*ssa.If); ok && pif.Cond == phi.Edges[i] && pred.Succs[0] != pred.Succs[1] {
+			// the phi is the very condition the predecessor has just branched on
+			val = pred.Succs[0] == b
+		} else {
+			return true
+		}
+		if neg {
+			val = !val
+		}
+		if val {
+			return succIdx == 0
+		}
+		return succIdx == 1
+	}
+	return true
+}
+
+// ---------------------------------------------------------------------------------------------
+// R9.18 — the set of requested label positions is asked about block-level positions only
+
+func init() {
+	register(ruleDef{ID: "R9.18", Prop: "C09", Tier: "quick", Floor: 6,
+		Title: "the set of requested label positions is asked about block-level positions only: in the labels-package writers that receive the set 'indices' of positions in the block's label table (PositionedBlock.writeRLEs, PositionedBlock.WriteBinaryBlock) every lookup in that set, and every comparison with its single member, is made with an element read from the block's SBIndices (directly or through the local copy filled from it) — a sub-block-local packed value is a position in the sub-block's own table, not in the block's",
+		Fn:    ruleBlockLevelIndexOnly})
+	register(ruleDef{ID: "R18.22", Prop: "C18", Tier: "quick", Floor: 6,
+		Title: "(= R9.18) the sparse-volume writers ask the set of requested label positions about block-level positions only",
+		Fn:    ruleBlockLevelIndexOnly})
+}
+
+func ruleBlockLevelIndexOnly(r *Run) {
+	w := r.W
+	total := 0
+	for _, f := range w.RepoFuncs {
+		if len(f.Blocks) == 0 || relPkg(pkgPathOf(f)) != "datatype/common/labels" || isTestFunc(w, f) {
+			continue
+		}
+		var set *ssa.Parameter
+		for _, p := range f.Params {
+			if p.Name() == "indices" && p.Type().String() == "map[uint32]struct{}" {
+				set = p
+			}
+		}
+		if set == nil {
+			continue
+		}
+		fromSBIndices := func(v ssa.Value) bool {
+			u, ok := stripConv(v).(*ssa.UnOp)
+			if !ok || u.Op != token.MUL {
+				return false
+			}
+			ia, ok := u.X.(*ssa.IndexAddr)
+			return ok && isFieldLoad(ia.X, "Block", "SBIndices")
+		}
+		blockLevel := func(v ssa.Value) bool {
+			if fromSBIndices(v) {
+				return true
+			}
+			u, ok := stripConv(v).(*ssa.UnOp)
+			if !ok || u.Op != token.MUL {
+				return false
+			}
+			ia, ok := u.X.(*ssa.IndexAddr)
+			if !ok {
+				return false
+			}
+			// a local slice every element store of which is an element of SBIndices
+			stores, good := 0, true
+			for _, b := range f.Blocks {
+				for _, in := range b.Instrs {
+					st, ok := in.(*ssa.Store)
+					if !ok {
+						continue
+					}
+					ia2, ok := st.Addr.(*ssa.IndexAddr)
+					if !ok || ia2.X != ia.X {
+						continue
+					}
+					stores++
+					if !fromSBIndices(st.Val) {
+						good = false
+					}
+				}
+			}
+			_, isMake := ia.X.(*ssa.MakeSlice)
+			return isMake && stores >= 1 && good
+		}
+		// the single member: the key of a range over the set
+		isMember := func(v ssa.Value) bool {
+			for _, rv := range roots(v, f) {
+				if ex, ok := rv.V.(*ssa.Extract); ok {
+					if nx, ok := ex.Tuple.(*ssa.Next); ok {
+						if rg, ok := nx.Iter.(*ssa.Range); ok && rg.X == ssa.Value(set) {
+							return true
+						}
+					}
+				}
+			}
+			return false
+		}
+		n := 0
+		for _, b := range f.Blocks {
+			for _, in := range b.Instrs {
+				switch x := in.(type) {
+				case *ssa.Lookup:
+					if x.X != ssa.Value(set) {
+						continue
+					}
+					n++
+					r.check(blockLevel(x.Index), fmt.Sprintf("%s:lookup#%d:block-level-position", fname(f), n), "the set is asked about an element of SBIndices",
+						"the set of requested label positions is asked about a value that is not an element of the block's SBIndices: a sub-block-local packed value is taken for a position in the block's label table, and runs are written for whichever labels sit at those local positions", w.pos(x.Pos()))
+				case *ssa.BinOp:
+					if x.Op != token.EQL && x.Op != token.NEQ {
+						continue
+					}
+					var other ssa.Value
+					if _, isPhi := stripConv(x.X).(*ssa.Phi); isPhi && isMember(x.X) {
+						other = x.Y
+					} else if _, isPhi := stripConv(x.Y).(*ssa.Phi); isPhi && isMember(x.Y) {
+						other = x.X
+					}
+					if other == nil {
+						continue
+					}
+					n++
+					r.check(blockLevel(other), fmt.Sprintf("%s:compare#%d:block-level-position", fname(f), n), "the single requested position is compared with an element of SBIndices",
+						"the single requested label position is compared with a value that is not an element of the block's SBIndices", w.pos(x.Pos()))
+				}
+			}
+		}
+		total += n
+	}
+	r.check(total >= 6, "labels:set-of-positions:uses", fmt.Sprintf("%d", total), "too few uses found: rule needs review", "-")
+}
+
+// ---------------------------------------------------------------------------------------------
+// R9.19 — a block made from a subvolume has the block's size
+
+func init() {
+	register(ruleDef{ID: "R9.19", Prop: "C09", Tier: "quick", Floor: 2,
+		Title: "a block encoded from a subvolume has the block's size: in labels.subvolumeData.encodeBlock the size handed to MakeSolidBlock and the size stored in the Block it builds are computed from the receiver's blockSize only, never from volsize (a uniform block of a larger subvolume would carry the subvolume's dimensions in its header)",
+		Fn:    ruleEncodedBlockHasBlockSize})
+}
+
+func ruleEncodedBlockHasBlockSize(r *Run) {
+	w := r.W
+	f := w.method("datatype/common/labels", "subvolumeData", "encodeBlock")
+	if f == nil || len(f.Blocks) == 0 {
+		r.undecided("labels.subvolumeData.encodeBlock", "anchor not found")
+		return
+	}
+	fieldsOf := func(v ssa.Value) map[string]bool {
+		out := map[string]bool{}
+		for d := range dataDeps(v) {
+			for _, x := range []ssa.Value{d} {
+				if fa, ok := x.(*ssa.FieldAddr); ok {
+					if name, _, _ := fieldName(fa); name != "" {
+						out[name] = true
+					}
+				}
+				if fl, ok := x.(*ssa.Field); ok {
+					if st, ok := fl.X.Type().Underlying().(*types.Struct); ok {
+						out[st.Field(fl.Field).Name()] = true
+					}
+				}
+				// a helper of the same receiver: the fields it reads
+				if c, ok := x.(*ssa.Call); ok {
+					if callee := staticCallee(c); callee != nil && len(callee.Blocks) > 0 && callee.Signature.Recv() != nil && len(f.Params) > 0 && len(c.Call.Args) > 0 && (c.Call.Args[0] == ssa.Value(f.Params[0]) || isLoadOf(c.Call.Args[0], f.Params[0])) {
+						for _, b := range callee.Blocks {
+							for _, in := range b.Instrs {
+								if fa, ok := in.(*ssa.FieldAddr); ok && strings.Contains(fa.X.Type().String(), "subvolumeData") {
+									if name, _, _ := fieldName(fa); name != "" {
+										out[name] = true
+									}
+								}
+							}
+						}
+					}
+				}
+			}
+		}
+		return out
+	}
+	n := 0
+	chk := func(v ssa.Value, what string, pos token.Pos) {
+		n++
+		fs := fieldsOf(v)
+		r.check(fs["blockSize"] && !fs["volsize"], fmt.Sprintf("encodeBlock:%s#%d:from-blockSize", what, n), "the size comes from blockSize",
+			"the size of the encoded block does not come from the receiver's blockSize alone (fields read: "+strings.Join(sortedBoolKeys(fs), ",")+"): a uniform block cut from a larger subvolume carries the subvolume's dimensions, its header and voxel count are wrong for every reader", w.pos(pos))
+	}
+	for _, c := range calls(f) {
+		if callee := staticCallee(c); callee != nil && callee.Name() == "MakeSolidBlock" && len(c.Common().Args) >= 2 {
+			chk(c.Common().Args[1], "solid-block-size", c.Pos())
+		}
+	}
+	for _, b := range f.Blocks {
+		for _, in := range b.Instrs {
+			st, ok := in.(*ssa.Store)
+			if !ok {
+				continue
+			}
+			if fa, ok := st.Addr.(*ssa.FieldAddr); ok {
+				if name, _, _ := fieldName(fa); name == "Size" && strings.Contains(fa.X.Type().String(), "Block") {
+					chk(st.Val, "block-size", st.Pos())
+				}
+			}
+		}
+	}
+	r.check(n >= 2, "encodeBlock:sizes", fmt.Sprintf("%d", n), "too few size sites found: rule needs review", w.fpos(f))
+}
+
+func sortedBoolKeys(m map[string]bool) []string {
+	var out []string
+	for k := range m {
+		out = append(out, k)
+	}
+	sort.Strings(out)
+	return out
+}
+
+func isLoadOf(v ssa.Value, p ssa.Value) bool {
+	u, ok := v.(*ssa.UnOp)
+	return ok && u.Op == token.MUL && u.X == p
 }
